@@ -151,6 +151,7 @@ impl GitDiff {
         };
 
         let mut staged_files = HashSet::new();
+        let mut index_paths = HashSet::new();
         for entry in index.entries() {
             // Symbolic links and submodules are skipped here exactly as on the HEAD side:
             // only regular files are tracked.
@@ -168,7 +169,19 @@ impl GitDiff {
                 .is_none_or(|head_oid| *head_oid != entry.id);
 
             if is_staged {
-                staged_files.insert(self.workdir.join(path));
+                staged_files.insert(self.workdir.join(&path));
+            }
+            index_paths.insert(path);
+        }
+
+        // A file removed from the index (`git rm --cached`) differs from HEAD as well.
+        // As for deleted files in diff mode, it only matters while it still exists locally.
+        for path in head_paths.keys() {
+            if !index_paths.contains(path) {
+                let full_path = self.workdir.join(path);
+                if full_path.exists() {
+                    staged_files.insert(full_path);
+                }
             }
         }
 
